@@ -82,6 +82,9 @@ let check inp obs =
         let h = List.map (fun (_, c, r, op, res) ->
             { o_call = c; o_ret = r; o_op = parse_op op;
               o_res = (match parse_res res with Some x -> x | None -> RPanic) }) recs in
+        (* the verdict does not depend on the order of the list; the search tries candidates in list
+           order, and the order of the return stamps is close to the order of the lock acquisitions *)
+        let h = List.stable_sort (fun a b -> compare (int_of_n a.o_ret) (int_of_n b.o_ret)) h in
         match lru_lin (n_of_int 2000000) cap h with
         | Some true -> (true, "")
         | r ->
